@@ -14,7 +14,8 @@ RULE = (
     "pairs (schema, edited schema) are produced by 48 elementary edit operators on the schema IR (add / "
     "remove / retype of types, fields, arguments, input fields at every wrapper depth: T->T!, T!->T, "
     "[T]->[T!], [T!]->[T], [T]->[[T]], named swap; enum values, union members, interface "
-    "implementations, directives, locations, defaults, deprecations), singly and in combinations of "
+    "implementations, directives, locations, defaults, deprecations; argument edits on an interface's "
+    "or an implementation's own copy of a field; abstract type narrowed to a possible type), singly and in combinations of "
     "2-3, plus structurally equal pairs (rebuilt, definitions reordered); both sides are code-built; "
     "diff_schema's change list (multiset of (class, message)) is checked: nothing for equal pairs; a "
     "change naming each edited element; whenever no BREAKING change is reported an independent "
